@@ -281,6 +281,9 @@ def dry_runs():
         yield 'P3_chunking', dict(k=k, c1=min(3, n), c2=min(7, n), asbytes=True)
 
 
+PROBES = ['screen']      # representation probes (harness/probes.py) this harness depends on
+
+
 MANIFEST_ENTRY = {
     'level_text': 'Bounded symbolic verification of the real ANSI/FSM/screen code: (P1) write_ch and (P2) one parser '
                   'step from every FSM state x every character class of the transition table with unbounded symbolic '
